@@ -73,6 +73,27 @@ def check(run):
         qs = list(xs) + [(a + b) / 2 for a, b in zip(xs, xs[1:])] + [xs[0] - Fr(1, 3), xs[-1] + Fr(1, 7), xs[0] + Fr(1, 1024)]
         reqs.append(dict(m="table", op="reader", rows=[[fq(x), fq(y)] for x, y in zip(xs, ys)], xs=[fq(q) for q in qs]))
         plan.append((xs, ys, txt, nl, qs))
+    # closely spaced rows far from the origin (a fine table of a steep wall, x in the hundreds, spacing 1e-3..1e-5) queried right next to the rows: the interpolated value
+    # must still be the interpolant - between the two neighbouring y values - to the same 1e-12 (round-6 observation: m*x + c with c = ly - m*lx cancels there)
+    for i in range(run.n(20, 300)):
+        n = rng.randint(2, 6)
+        x0 = Fr(rng.randint(100000, 999999), 1000)
+        gap = Fr(1, rng.choice([1000, 10000, 100000]))
+        xs = [x0 + k * gap for k in range(n)]
+        ys = [Fr(rng.randint(-1000, 1000), 100) for _ in range(n)]
+        nl = True
+        txt = "".join("%s %s\n" % (repr(float(x)), repr(float(y))) for x, y in zip(xs, ys))
+        xs = [Fr(float(x)) for x in xs]
+        ys = [Fr(float(y)) for y in ys]
+        if any(a >= b for a, b in zip(xs, xs[1:])):
+            continue
+        qs = list(xs)
+        for a, b in zip(xs, xs[1:]):
+            qs += [a + (b - a) / 2, Fr(float(b) - 1e-13 * float(b)), Fr(float(a) + 1e-13 * float(a)), a + (b - a) * Fr(rng.randint(1, 999), 1000)]
+        qs = [Fr(float(q)) for q in qs]                      # the query points are doubles: the specification is evaluated at exactly the point the reader is given
+        qs = [q for q in qs if xs[0] <= q <= xs[-1]]
+        reqs.append(dict(m="table", op="reader", rows=[[fq(x), fq(y)] for x, y in zip(xs, ys)], xs=[fq(q) for q in qs]))
+        plan.append((xs, ys, txt, nl, qs))
     ans = lean_query(reqs)
     nb = 0
     for (xs, ys, txt, nl, qs), a in zip(plan, ans):
